@@ -32,7 +32,7 @@ func scratchField(named *types.Named) int {
 	}
 	for i := 0; i < st.NumFields(); i++ {
 		if at, ok := st.Field(i).Type().Underlying().(*types.Array); ok {
-			if b, ok := at.Elem().Underlying().(*types.Basic); ok && b.Kind() == types.Uint8 && st.Field(i).Name() == "scratch" {
+			if b, ok := at.Elem().Underlying().(*types.Basic); ok && b.Kind() == types.Uint8 && core.FieldName(st, i) == "scratch" {
 				return i
 			}
 		}
